@@ -90,7 +90,7 @@ func TestVerif_C12Delay(t *testing.T) {
 }
 
 func c07Body(rep *verifkit.Report, n int, mapSig func(string) (string, bool)) {
-	rep.Rule = "each scenario: a synced node with SafeTxDelay=300 ms and the real checkTxDelays goroutine; 3-6 transactions over 4 outpoints arrive from generated sources (untrusted first, trusted later, trusted only, local), conflicting arrivals are placed before the expiry, inside the checker's fetch->save window (hook node.safe.fetched holds it open for 40 ms and signals the harness) and after it; confirmations race the checker; clean restarts before/after the safe report. Per-txid notification trajectories of both handlers are judged (never safe&unsafe, cancelled=>unsafe, no safe after unsafe, unconfirmed safe only if the trusted peer had sent inv/tx, not before first_send+delay, at most once; bounded liveness: within 20 checker iterations counted at hook node.safe.iteration). Non-trivial = a conflict or a restart or an untrusted-first arrival; distinct by step-shape string"
+	rep.Rule = "each scenario: a synced node with SafeTxDelay=300 ms and the real checkTxDelays goroutine; 3-6 transactions over 4 outpoints arrive from generated sources (untrusted first, trusted later, trusted only, local), conflicting arrivals are placed before the expiry, inside the checker's fetch->save window (hook node.safe.fetched holds it open for 40 ms and signals the harness) and after it; confirmations race the checker; a double spend is confirmed while the node catches up after a dropped connection; clean restarts before/after the safe report. Per-txid notification trajectories of both handlers are judged (never safe&unsafe, cancelled=>unsafe, no safe after unsafe, unconfirmed safe only if the trusted peer had sent inv/tx, not before first_send+delay, at most once; bounded liveness: within 20 checker iterations counted at hook node.safe.iteration). Non-trivial = a conflict or a restart or an untrusted-first arrival; distinct by step-shape string"
 	rep.Assumptions = []string{"age is measured from the harness' clock just before the first send, which over-approximates the node's own first-seen time: measured < delay is a definite violation", "liveness is counted in checker iterations (hook), the wall-clock watchdog only yields inconclusive", "transactions whose life spans a restart carry no liveness obligation"}
 	defer rep.Write()
 
@@ -216,7 +216,17 @@ func c07Body(rep *verifkit.Report, n int, mapSig func(string) (string, bool)) {
 					time.Sleep(time.Duration(c07DelayMS+150+r.Intn(100)) * time.Millisecond)
 					fp += "Xa"
 				}
-				c.arrive(x, []string{"trusted-bare", "untrusted-bare"}[r.Intn(2)])
+				// (also submitted locally: a local submission counts as safe on its own, but not
+				// when it spends what another known transaction spends)
+				c.arrive(x, []string{"trusted-bare", "untrusted-bare", "local"}[r.Intn(3)])
+				if (t.relevant || !c.lifeSpansRestart[t]) && !conflicted[t] && len(t.confirmedAt) == 0 {
+					// (... and only while t is itself still unconfirmed and uncancelled: a spend of
+					// an outpoint that a confirmed transaction spent is not double-spend tracking's
+					// subject any more)
+					// (an irrelevant transaction seen before a restart is not remembered across it:
+					// nothing says the mempool of unrelated transactions must be persisted)
+					c.conflictKnown[x] = c.now()
+				}
 				c.conflictKnown[t] = c.now()
 				conflicted[t] = true
 				conflicted[x] = true
@@ -242,6 +252,18 @@ func c07Body(rep *verifkit.Report, n int, mapSig func(string) (string, bool)) {
 				c.restarts++
 				c.startChecker()
 				fp += "S"
+			case k < 9: // the trusted connection drops; its double spend is confirmed while the node catches up
+				if len(t.confirmedAt) == 0 && !conflicted[t] {
+					time.Sleep(time.Duration(r.Intn(150)) * time.Millisecond)
+					w.dropConnection()
+					d := w.makeTx("none", []wire.OutPoint{t.spends[0]})
+					w.mine([]*txInfo{d}, true)
+					w.finishSync()
+					c.conflictKnown[t] = c.now()
+					conflicted[t] = true
+					conflicted[d] = true
+					fp += "Dk"
+				}
 			default:
 				time.Sleep(time.Duration(r.Intn(200)) * time.Millisecond)
 			}
